@@ -20,7 +20,11 @@ def rand_history(rng, length, nvars=3, with_rot=False):
         if k < 0.18:
             ops.append(("move", v, gen.pt(rng, -6, 6)))
         elif k < 0.32:
-            ops.append(("scale", v, F(rng.choice([1, 2, 3, 1, 1])) / rng.choice([1, 2, 3]), F(rng.choice([1, 2, 3])) / rng.choice([1, 2])))
+            sx, sy = F(rng.choice([1, 2, 3, 1, 1])) / rng.choice([1, 2, 3]), F(rng.choice([1, 2, 3])) / rng.choice([1, 2])
+            sgn = rng.choice([(1, 1), (1, 1), (-1, -1), (-1, 1), (1, -1)])      # mirrors and point reflections are legal in-place scalings
+            if sgn == (-1, -1) and rng.random() < 0.5:
+                sy = sx                                                          # uniform negative factor
+            ops.append(("scale", v, sgn[0] * sx, sgn[1] * sy))
         elif k < 0.40 and with_rot:
             ops.append(("rot", v, rng.choice([90, 180, 270])))
         elif k < 0.50:
